@@ -434,3 +434,113 @@ Proof.
     change (nappend (?a :: ?b :: st')%list) with (S (nappend st')).
     rewrite H1, H2. reflexivity.
 Qed.
+
+(* ---------- Driver.sendCommand: which failure list is in force ---------- *)
+
+Definition sc1_env (op_empty : bool) : denv :=
+  mkEnvX (fun _ => false)
+         (fun a b => String.eqb a "len(driverOpts.FailedWhenContains)" && String.eqb b "0" && op_empty)
+         (fun _ => "") (fun _ => None)
+         (fun st a b => if String.eqb a "err" && String.eqb b "nil" then Some (Some true) else None)
+         (fun _ => O) (fun _ _ => None).
+
+(* Some true: the response is created with the driver's list; Some false: with the operation's.
+   The response must be created from driverOpts.FailedWhenContains, the input sent, the output
+   recorded into that response, and the response returned *)
+Definition sc1_run (op_empty : bool) : option bool :=
+  match exec 20 (sc1_env op_empty) send_command_code [] with
+  | Returned st "r, nil" =>
+      match sget st "r", calls_of st with
+      | Some "response.NewResponse( command, d.Transport.GetHost(), d.Transport.GetPort(), driverOpts.FailedWhenContains, )",
+        ["d.Channel.SendInput(command, opts...)"; "r.Record(b)"]%list =>
+          match sget st "driverOpts.FailedWhenContains" with
+          | None => Some false
+          | Some "d.FailedWhenContains" => Some true
+          | Some _ => None
+          end
+      | _, _ => None
+      end
+  | _ => None
+  end.
+
+(* THE TIE: the operation-level list replaces the driver-level list only when non-empty *)
+Theorem send_command_fws_is_source : forall opf drvf : list bytes,
+  sc1_run (nilb opf) = Some (nilb opf)
+  /\ effective_fws opf drvf = if nilb opf then drvf else opf.
+Proof. intros [|x opf] drvf; split; reflexivity. Qed.
+
+(* ---------- network Driver.SendConfig: the collapse ---------- *)
+
+Definition cfg_env (n : nat) : denv :=
+  mkEnvX (fun _ => false) (fun _ _ => false) (fun _ => "") (fun _ => None)
+         (fun st a b => if String.eqb a "err" && String.eqb b "nil" then Some (Some true) else None)
+         (fun x => if String.eqb x "m.Responses" then n else O) (fun _ _ => None).
+
+(* the indices j for which `rOutputs[i] = resp.Result` ran with i the index of resp and resp the
+   j-th member, newest first *)
+Fixpoint outs (st : store) : list nat :=
+  match st with
+  | []%list => []%list
+  | ((k1, v1) :: rest)%list =>
+      match rest with
+      | ((k2, v2) :: (k3, v3) :: _)%list =>
+          if String.eqb k1 "rOutputs[i]" && String.eqb v1 "resp.Result" && String.eqb k2 "i"
+             && String.eqb v2 "index of resp" && String.eqb k3 "resp"
+          then (String.length v3 :: outs rest)%list else outs rest
+      | _ => outs rest
+      end
+  end.
+
+Definition cfg_run (n : nat) : option (list nat) :=
+  match exec 30 (cfg_env n) send_config_code [] with
+  | Returned st "r, nil" =>
+      match sget st "r.Result", sget st "r.Failed", sget st "rOutputs" with
+      | Some "strings.Join(rOutputs, ""\n"")", Some "m.Failed", Some "make([]string, len(m.Responses))" => Some (rev (outs st))
+      | _, _, _ => None
+      end
+  | _ => None
+  end.
+
+Definition cfg_body : list dstmt := [DAssign "i" "index of resp"; DAssign "rOutputs[i]" "resp.Result"].
+
+Lemma cfg_loop : forall n k i st,
+  exists st', range_loop (exec 24 (cfg_env n) cfg_body) "resp" k i st = Running st'
+              /\ outs st' = (rev (seq i k) ++ outs st)%list
+              /\ (forall key, String.eqb key "resp" = false -> String.eqb key "i" = false ->
+                              String.eqb key "rOutputs[i]" = false -> sget st' key = sget st key).
+Proof.
+  intros n k. induction k as [|k IH]; intros i st.
+  - exists st. cbn [range_loop seq rev app]. repeat split; reflexivity.
+  - cbn [range_loop].
+    change (exec 24 (cfg_env n) cfg_body (("resp", unary i) :: st)%list)
+      with (Running (("rOutputs[i]", "resp.Result") :: ("i", "index of resp") :: ("resp", unary i) :: st)%list).
+    destruct (IH (S i) (("rOutputs[i]", "resp.Result") :: ("i", "index of resp") :: ("resp", unary i) :: st)%list)
+      as [st' [E [Ho Hk]]].
+    exists st'. split; [exact E|]. split.
+    + rewrite Ho. cbn [seq rev]. rewrite <- app_assoc. f_equal.
+      change (outs (("rOutputs[i]", "resp.Result") :: ("i", "index of resp") :: ("resp", unary i) :: st)%list)
+        with (String.length (unary i) :: outs (("i", "index of resp") :: ("resp", unary i) :: st))%list.
+      rewrite unary_length. cbn [app]. f_equal.
+      destruct st as [|[k1 v1] [|[k2 v2] st2]]; reflexivity.
+    + intros key H1 H2 H3. rewrite (Hk key H1 H2 H3). cbn [sget]. now rewrite H3, H2, H1.
+Qed.
+
+(* THE TIE: SendConfig as translated from the source on this run copies the result of EVERY member
+   of the multi response, in order, into the slice it joins with newlines, and passes the aggregate
+   on as the collapsed response's failure *)
+Theorem send_config_is_source : forall n, cfg_run n = Some (seq 0 n).
+Proof.
+  intros n. unfold cfg_run, send_config_code. fold cfg_body.
+  assert (Herr : forall st, eval (cfg_env n) st (DNot (DEq "err" "nil")) = Some false) by reflexivity.
+  rewrite exec_step_assign, exec_step_call, exec_step_if, Herr, exec_step_nil. cbn [cont].
+  rewrite !exec_step_assign, exec_step_range.
+  change (e_len (cfg_env n) "m.Responses") with n.
+  match goal with |- context [range_loop _ _ n 0 ?s] => destruct (cfg_loop n n 0 s) as [st' [E [Ho Hk]]] end.
+  rewrite E. cbn [cont]. rewrite !exec_step_assign, exec_step_return.
+  cbn [sget String.eqb Ascii.eqb Bool.eqb]. rewrite Hk by reflexivity.
+  cbn [sget String.eqb Ascii.eqb Bool.eqb].
+  match goal with |- Some (rev (outs ?s)) = _ => 
+    assert (Hs : outs s = outs st') end.
+  { destruct st' as [|[k1 v1] [|[k2 v2] st2]]; reflexivity. }
+  rewrite Hs, Ho. cbn [outs]. now rewrite app_nil_r, rev_involutive.
+Qed.
